@@ -351,6 +351,43 @@ def flags_case(ctx, case):
     ctx.evaluations += max(n - 1, 0)
 
 
+EMPTY_SETS = (('no sigfields at all', {}, '00'), ('only field masked by the flags', {'sigfield1': b'only'}, '01'),
+              ('both fields masked', {'sigfield1': b'one', 'sigfield2': b'two'}, '03'), ('present but empty field', {'sigfield3': b''}, '00'),
+              ('empty field and a masked one', {'sigfield3': b'', 'sigfield8': b'eight'}, '80'))
+
+
+def empty_message_case(ctx, case):
+    """the signed message is empty (no sigfields, all masked by the flags, present but empty): both paths work as with any message"""
+    kind, si = case
+    name, sfs, fl = EMPTY_SETS[si]
+    seed = ctx.seed
+    sk, pk = keys(seed)
+    tw = tweak(seed)
+    pre = preimages(seed)
+    n = 0
+    try:
+        lock = build_lock(kind, pk, pre['right'], 50, flags=fl, tw=tw)
+    except BaseException as e:
+        ctx.violation({'lock': kind, 'block': 'empty message', 'clause': 'lock builder refuses'}, f'{kind} flags {fl}: {e!r}')
+        return
+    for path, signer, choice, t in (('claim', 'receiver', 'right', T0), ('refund', 'refund', 'wrong', T0 + 50), ('claim', 'outsider', 'right', T0),
+                                    ('refund', 'refund', 'wrong', T0 + 49)):
+        wk = matching_witness(kind, path)
+        env.Clock.now = t
+        n += 1
+        try:
+            w = build_witness(wk, sk, signer, pre[choice], dict(sfs), flags=fl, tw=tw)
+        except BaseException as e:
+            ctx.violation({'lock': kind, 'block': 'empty message', 'clause': 'witness builder refuses', 'path': path},
+                          f'{kind} {path} witness for "{name}": {e!r}')
+            continue
+        want = model(kind, wk, signer, choice, t, t, T0 + 50, True, True)
+        ctx.state(('empty message', kind, si, path, signer, t))
+        judge(ctx, w, lock, {**sfs, 'timestamp': t}, want, {'lock': kind, 'block': 'empty message', 'path': path},
+              f'{kind} {path} signer={signer} t={t - T0}: {name}', t)
+    ctx.evaluations += max(n - 1, 0)
+
+
 def cross_case(ctx, case):
     kind, wk = case
     seed = ctx.seed
@@ -397,6 +434,8 @@ def blocks(tier, seed):
               ('1..64'), nshards=min(len(pl), 128)),
         Block('ptlc_tweak_scalars', tweak_scalars(seed), ptlc_tweaks, 'tweak scalars {1, L-1, clamped, unclamped, 2^254+} x witness kinds x signers', nshards=5),
         Block('sigflags_and_fields', fl, flags_case, 'flag/allowed pairs (every single bit permitted / alone not permitted, mixed patterns) x covered / excluded field changes, both paths', nshards=min(len(fl), 256)),
+        Block('empty_signed_message', [(k, i) for k in KINDS for i in range(len(EMPTY_SETS))], empty_message_case,
+              'lock kind x 5 ways of signing the empty message (no fields, all masked, present but empty) x claim / refund / outsider / too early', nshards=30),
         Block('cross_pairings', cr, cross_case, 'all witness kinds x all lock kinds x signers x preimage choices', nshards=len(cr)),
     ]
 
